@@ -5,6 +5,7 @@
    [vrf_label l fresh v] is the 256-bit node label, [vrf_proof l fresh v] the proof bytes; a missing
    entry makes the model fail ([None]), it never guesses. *)
 From Coq Require Import List Bool Arith NArith Lia.
+From Akd Require GenConsts.
 From Akd Require Import Bits NodeLabel ElemSet Hashing Tree Insert Marker.
 Import ListNotations.
 Open Scope N_scope.
@@ -125,6 +126,14 @@ Section Dir.
           end
         end
       end.
+
+  (* StorageManager::tombstone_value_states seen from the directory: the values of the label's
+     states with epoch <= c become the (empty) tombstone; nothing else is touched *)
+  Definition tomb_state (l : bytes) (c : N) (s : vrec) : vrec :=
+    if bytes_eqb (vr_user s) l && (vr_epoch s <=? c)
+    then VR (vr_user s) (vr_epoch s) (vr_version s) GenConsts.TOMBSTONE (vr_label s) else s.
+  Definition d_tombstone (st : dstate) (l : bytes) (c : N) : dstate :=
+    DS (d_tree st) (d_epoch st) (d_num st) (map (tomb_state l c) (d_states st)).
 
   (* ---------------------------------------------------------------- lookup *)
 
